@@ -3,6 +3,7 @@ import NmVerif.Containers.Spec
 import NmVerif.Containers.Vector
 import NmVerif.Containers.VectorProofs
 import NmVerif.Containers.VectorLedger
+import NmVerif.Containers.VectorMarked
 import NmVerif.Containers.StaticVector
 import NmVerif.Containers.StaticVectorProofs
 import NmVerif.Containers.SmallVector
@@ -53,6 +54,20 @@ theorem vector_view_eq (zero : α) (h : List (Op α)) (hok : AllOk (stdSpec zero
     simp only [h1, h2, ORel] at this ⊢
   · rfl
   · simp [this.2]
+
+/-- For EVERY history without aliasing pushes — sized construction and growing resizes included — `utl::vector`
+    differs from `std::vector` at most in elements that were created by value-initialisation and not written since:
+    with `m` the reference run that marks such elements (`markedSpec`, `none` = fresh), (1) liveness and sizes agree,
+    (2) every element the marked run holds as a definite value is exactly that value in the implementation,
+    (3) erasing the marks (`fresh ↦ zero`) gives the `std::vector` run. -/
+theorem vector_refines_list_up_to_fresh (zero : α) (h : List (Op α)) (hok : ∀ op ∈ h, ∀ s i, op ≠ .pushAt s i) :
+    WRel RMark (run (vecImpl α) World.empty h) (run (markedSpec (α := α)) World.empty h) ∧
+    WRel (fun l m => m = l.map (unmark zero)) (run (markedSpec (α := α)) World.empty h) (run (stdSpec zero) World.empty h) := by
+  refine ⟨run_sim mark_sim h (wrel_empty _) (allOk_of_forall _ _ h ?_ _),
+          run_sim (unmark_sim zero) h (wrel_empty _) (allOk_of_forall _ _ h (fun _ _ _ => trivial) _)⟩
+  intro op hop st
+  cases op <;> simp only [noAlias]
+  exact hok _ hop _ _ rfl
 
 example : AllOk (stdSpec (0 : Int)) vecOk World.empty
     [.ctor 0, .push 0 7, .push 0 8, .ctorV 1 [1, 2, 3], .assign 1 0, .resize 0 1, .write 1 1 5, .copy 2 1, .destroy 0] := by
